@@ -63,6 +63,14 @@ def extract():
     expect("c12.laplace.placement", rel, t,
            r"Direction::Left => \{\s*Replicated::new\(OV::ZERO, OV::truncate_from\(u128::from\(symmetric_sample\)\)\)\s*\}\s*Direction::Right => \{\s*Replicated::new\(OV::truncate_from\(u128::from\(symmetric_sample\)\), OV::ZERO\)")
     expect("c12.laplace.three_passes", rel, t, r"LaplacePass1\),\s*histogram_bin_values,\s*Role::H1,.*?LaplacePass2\),\s*noised_output,\s*Role::H2,.*?LaplacePass3\),\s*noised_output,\s*Role::H3,")
+    expect("c12.laplace.rng_by_direction", rel, t,
+           r"let \(mut left, mut right\) = ctx\.prss_rng\(\);\s*let rng = match direction_to_excluded_helper \{\s*Direction::Left => &mut right,\s*Direction::Right => &mut left,\s*\};")
+    expect("c12.laplace.per_bucket_draw", rel, t,
+           r"std::array::from_fn\(\|_i\| \{\s*shifted_truncated_discrete_laplace\.sample_shares\(rng, direction_to_excluded_helper\)\s*\}\)")
+    expect("c12.laplace.add_noise", rel, t,
+           r"let \(histogram_noised, _\) = integer_add::<_, ThirtyTwoBitStep, B>\(\s*apply_noise_ctx,\s*RecordId::FIRST,\s*&noise_shares_vectorized,\s*&histogram_bin_values,\s*\)")
+    expect("c12.laplace.params", rel, t,
+           r"DpMechanism::DiscreteLaplace \{ epsilon \} => \{\s*let noise_params = NoiseParams \{\s*epsilon,\s*per_user_credit_cap: 2_u32\.pow\(u32::try_from\(SS_BITS\)\.unwrap\(\)\),\s*\.\.Default::default\(\)\s*\};")
     expect("c12.laplace.excluded_zero", rel, t, r"std::array::from_fn\(\|_i\| Replicated::new\(OV::ZERO, OV::ZERO\)\)")
 
     rel = "protocol/ipa_prf/oprf_padding/insecure.rs"
